@@ -33,7 +33,9 @@ func main() {
 	var ids []string
 	if *prop == "all" {
 		for id := range props {
-			ids = append(ids, id)
+			if len(id) == 3 && id[0] == 'C' { // the twenty properties; discovery aids (INFER-*) are run by name only
+				ids = append(ids, id)
+			}
 		}
 		sort.Strings(ids)
 	} else {
